@@ -246,7 +246,7 @@ func (c01) Generate(r *sim.Rand, tier string) *sim.Scenario {
 	mode := r.Intn(8)
 	linear := mode >= 5
 	nclients := []int{1, 1, 1, 1, 2, 2, 3, 4}[r.Intn(8)]
-	g.o = genOpts{MaxElems: 64, MaxRank: 4, MaxDim: 4, Linear: linear,
+	g.o = genOpts{MaxElems: 64, MaxRank: 4, MaxDim: 4, Linear: linear, NoExpand: !linear && r.Bool(0.4),
 		PSynth: []float64{0.1, 0.3, 0.6}[r.Intn(3)], PTracked: []float64{0.5, 0.9, 1}[r.Intn(3)]}
 	maxOps := 24
 	maxDepth := 30
@@ -1305,7 +1305,138 @@ func (prop c01) Execute(sc *sim.Scenario) *sim.Outcome {
 			out.Probes["fd-checked-elements"] += nfd
 		}
 	}
+	/* 5. directional finite differences on smooth programs without broadcast expansion */
+	if sc.Cfg["linear"] != 1 && c01noExpansion(p, main.pool) {
+		type lf struct {
+			id int
+			v  []float64
+		}
+		var dirs []lf
+		gv, gabs := 0.0, 0.0
+		finite := true
+		for _, id := range p.order {
+			st := p.byID[id]
+			if st.Op != "tensorof" || !p.tracked[id] || !expect[id] {
+				continue
+			}
+			g := gotGrad[id]
+			v := make([]float64, len(st.F))
+			for i := range v {
+				v[i] = 1
+				if sim.SplitMix64(sc.Seed^uint64(id*131+i))&1 == 0 {
+					v[i] = -1
+				}
+				gv += g.vals[i] * v[i]
+				gabs += math.Abs(g.vals[i])
+				if math.IsNaN(g.vals[i]) || math.IsInf(g.vals[i], 0) {
+					finite = false
+				}
+			}
+			dirs = append(dirs, lf{id, v})
+		}
+		F := func(t float64) (float64, bool) {
+			run := p.build(nil, false, func(pid int, flat []float64) []float64 {
+				for _, d := range dirs {
+					if d.id == pid {
+						c := cpF(flat)
+						for i := range c {
+							c[i] += t * d.v[i]
+						}
+						return c
+					}
+				}
+				return flat
+			})
+			if run.err != "" {
+				return 0, false
+			}
+			s := 0.0
+			for _, c := range p.bporder {
+				if expectRoot(p, c) {
+					s += run.pool.T[p.roots[c]].Sum()
+				}
+			}
+			return s, !math.IsNaN(s) && !math.IsInf(s, 0)
+		}
+		// moderate magnitudes only: with values in the thousands a trigonometric
+		// or exponential node oscillates / explodes within one difference step
+		for _, id := range p.order {
+			for _, v := range sim.Values(main.pool.T[id]) {
+				if math.Abs(v) > 1e3 {
+					finite = false
+				}
+			}
+		}
+		if finite && len(dirs) > 0 {
+			// central differences at five step sizes; a judgement is made only
+			// if the sequence has visibly converged (all five agree coarsely, the
+			// three smallest agree finely), which an aliased or kinked difference
+			// quotient does not do at every scale at once
+			hs := []float64{1e-3, 3e-4, 1e-4, 3e-5, 1e-5}
+			ds := make([]float64, len(hs))
+			f0, ok := F(0)
+			noise := 0.0
+			for k, h := range hs {
+				a, ok1 := F(h)
+				b, ok2 := F(-h)
+				if !ok1 || !ok2 {
+					ok = false
+					break
+				}
+				ds[k] = (a - b) / (2 * h)
+				if n := 1e-9 * (math.Abs(f0) + math.Abs(a) + math.Abs(b)) / h; n > noise {
+					noise = n
+				}
+			}
+			if ok {
+				d := ds[len(ds)-2]
+				coarse, fine := 0.0, 0.0
+				for k := range ds {
+					if e := math.Abs(ds[k] - d); e > coarse {
+						coarse = e
+					}
+					if k >= 2 {
+						if e := math.Abs(ds[k] - d); e > fine {
+							fine = e
+						}
+					}
+				}
+				switch {
+				case math.Abs(d) < 1e-6 || coarse > 1e-2*math.Abs(d)+noise || fine > 1e-4*math.Abs(d)+noise:
+					out.Probes["directional-fd-inconclusive"]++
+				case math.Abs(d-gv) > 50*fine+1e-4*math.Abs(d)+10*noise+1e-11*gabs:
+					out.Fail("directional-fd", "the derivative of the summed roots along a random +-1 direction over all tracked leaves is %v by central differences (five step sizes 1e-3..1e-5 agree to %v), but the back-propagated gradients give %v", d, coarse, gv)
+					return fin()
+				default:
+					out.Probes["directional-fd-checked"]++
+				}
+			}
+		}
+	}
 	return fin()
+}
+
+// c01noExpansion: no operation of the program expands an operand by
+// broadcasting (where the library's known averaging would show).
+func c01noExpansion(p *c01prog, pool *sim.Pool) bool {
+	for _, st := range p.sc.Steps {
+		switch st.Op {
+		case "add", "sub", "mul", "div", "dot":
+			if !sim.ShapeEq(pool.T[st.In[0]].Shape(), pool.T[st.In[1]].Shape()) {
+				return false
+			}
+		case "matmul":
+			a, b := pool.T[st.In[0]].Shape(), pool.T[st.In[1]].Shape()
+			if len(a) != len(b) || !sim.ShapeEq(a[:len(a)-2], b[:len(b)-2]) {
+				return false
+			}
+		case "broadcast":
+			if !sim.ShapeEq(pool.T[st.In[0]].Shape(), pool.T[st.Out].Shape()) {
+				return false
+			}
+		}
+	}
+	return true
 }
 
 func expectRoot(p *c01prog, c int) bool { return p.tracked[p.roots[c]] }
